@@ -56,6 +56,18 @@ package utility
 //@   ensures [textfn!assumed] number != nil ==> result == amtText(old(big(number)))
 //@   modifies nothing
 
+// Stake amounts and rewards are converted through a float64: for a whole number of tokens (every stake is one) the
+// result is exactly that many base units - the 512-bit working precision holds the product without rounding.
+//@ func Float64ToBigInt
+//@   property C18 C06 C20
+//@   option intmode=math
+//@   ensures result != nil && fresh(result)
+//@   # stakeUnits names the function's value (it is a function of its argument); what that value is for whole
+//@   # numbers is the next clause
+//@   ensures [units!assumed] big(result) == stakeUnits(number)
+//@   ensures [whole] @is_int(number) && number >= real(0) && number <= real(18446744073709551615) ==> result != nil && real(big(result)) == number * real(1000000000000000000)
+//@   modifies nothing
+
 //@ func Uint64ToBigInt
 //@   property C18
 //@   option intmode=math
